@@ -881,6 +881,14 @@ func (g *GoFakeS3) deleteMulti(bucket string, w http.ResponseWriter, r *http.Req
 		return ErrorMessage(ErrMalformedXML, err.Error())
 	}
 
+	// As with the versionId subresource (see versionFromQuery), the version
+	// 'null' is the object that has no version ID:
+	for i := range in.Objects {
+		if in.Objects[i].VersionID == "null" {
+			in.Objects[i].VersionID = ""
+		}
+	}
+
 	var err error
 	var out MultiDeleteResult
 	if g.versioned == nil {
